@@ -213,8 +213,11 @@ def fixed_offset_us(tz):
     """offset in µs of a fixed-offset tzinfo; anything with transitions is outside the engine"""
     if tz is None:
         raise Unsupported("offset of None tz")
-    if getattr(tz, "_utc_transition_times", None):
-        raise Unsupported("tz with transitions: %r" % (tz,))
+    off = getattr(tz, "_utcoffset", None)
+    if isinstance(off, _rdt.timedelta):
+        # pytz tzinfo INSTANCES (one per (utcoffset, dst, name) of a zone) have a fixed offset: datetime.utcoffset() of a
+        # value carrying this very instance returns it, whatever the wall clock (CPython: `dt.tzinfo is self`)
+        return (off.days * 86400 + off.seconds) * 1000000 + off.microseconds
     probe = _rdt.datetime(2000, 1, 1)
     off = tz.utcoffset(probe)
     if off is None or off != tz.utcoffset(_rdt.datetime(2000, 7, 1)):
@@ -254,8 +257,6 @@ class SDateTime:
                 raise ValueError("second must be in 0..59")
             if not (S_and(0 <= microsecond, microsecond <= 999999)):
                 raise ValueError("microsecond must be in 0..999999")
-        if tzinfo is not None and getattr(tzinfo, "_utc_transition_times", None):
-            raise Unsupported("tz with transitions: %r" % (tzinfo,))
         self.year, self.month, self.day = year, month, day
         self.hour, self.minute, self.second, self.microsecond = hour, minute, second, microsecond
         self.tzinfo = tzinfo
@@ -282,6 +283,10 @@ class SDateTime:
         clk = cls._clock()
         if tz is None:
             return clk.replace()  # process-local zone is UTC (stub)
+        if getattr(tz, "_utc_transition_times", None):
+            u = clk._copy()
+            u.tzinfo = tz
+            return tz.fromutc(u)
         r = clk._shift_us(fixed_offset_us(tz))
         r.tzinfo = tz
         return r
@@ -306,6 +311,9 @@ class SDateTime:
         res = cls._from_pair(o, r, None)
         if tz is None:
             return res
+        if getattr(tz, "_utc_transition_times", None):
+            res.tzinfo = tz
+            return tz.fromutc(res)     # CPython: tz.fromutc(utc value carrying tz)
         res = res._shift_us(fixed_offset_us(tz))
         res.tzinfo = tz
         return res
@@ -484,6 +492,11 @@ class SDateTime:
             a = fixed_offset_us(self.tzinfo)
         if tz is None:
             raise Unsupported("astimezone() to the process-local zone")
+        if getattr(tz, "_utc_transition_times", None):
+            # CPython: utc = (self - offset).replace(tzinfo=tz); return tz.fromutc(utc)   (pytz's own fromutc runs)
+            utc = self._shift_us(-a) if a else self._copy()
+            utc.tzinfo = tz
+            return tz.fromutc(utc)
         b = fixed_offset_us(tz)
         if a == b:
             r = self.replace(tzinfo=tz)
@@ -513,6 +526,8 @@ class SDateTime:
         return NotImplemented
 
     def _cmpkey(self, o):
+        if isinstance(o, _rdt.datetime):
+            o = SDateTime(o.year, o.month, o.day, o.hour, o.minute, o.second, o.microsecond, tzinfo=o.tzinfo, _trusted=True)
         if not isinstance(o, SDateTime):
             raise TypeError("can't compare SDateTime to %s" % type(o).__name__)
         if (self.tzinfo is None) != (o.tzinfo is None):
@@ -525,7 +540,7 @@ class SDateTime:
     def __ge__(self, o): a, b, c, d = self._cmpkey(o); return mkbool(z_lex_le(c, d, a, b))
 
     def __eq__(self, o):
-        if not isinstance(o, SDateTime):
+        if not isinstance(o, (SDateTime, _rdt.datetime)):
             return False
         if (self.tzinfo is None) != (o.tzinfo is None):
             return False
@@ -571,6 +586,19 @@ class SDateTime:
 
 SDateTime.min = SDateTime(1, 1, 1)
 SDateTime.max = SDateTime(9999, 12, 31, 23, 59, 59, 999999)
+
+
+def sx_bisect_right(a, x, lo=0, hi=None):
+    """bisect.bisect_right in Python, so that the comparisons of a symbolic key fork (log2(len) decisions)"""
+    if hi is None:
+        hi = len(a)
+    while lo < hi:
+        mid = (lo + hi) // 2
+        if x < a[mid]:
+            hi = mid
+        else:
+            lo = mid + 1
+    return lo
 
 
 def sym_datetime(prefix, ymin=1, ymax=9999, tzinfo=None, with_time=True, with_us=True):
